@@ -17,14 +17,20 @@ MODES = ["fn", "mod", "trait_self", "static_target"]
 def enumerate_states(tier):
     depths = range(1, 6) if tier == "thorough" else range(1, 4)
     states = []
-    for mode, asy, d, ar, lt in itertools.product(MODES, (False, True), depths, (0, 1, 2), (False, True, "ab", "gen", "prov")):
+    for mode, asy, d, ar, lt in itertools.product(MODES, (False, True), depths, (0, 1, 2), (False, True, "ab", "gen", "prov", "val", "mki")):
+        if lt == "val" and (d != 1 or mode != "trait_self"):
+            continue    # a method taking `self` by value, on an entraited trait
+        if lt == "mki" and (d != 1 or mode not in ("fn", "mod") or asy):
+            continue    # mockall requested + return-position `impl Trait` (mockall's own mock boxes it; the real trait must not)
+        if lt in ("val", "mki") and ar == 2 and tier != "thorough":
+            continue
         if lt == "gen" and (d != 1 or mode != "trait_self"):
             continue    # a generic method: on an entraited trait only (type parameters of fns / impl-block fns are lifted to the trait)
         if lt == "prov" and (d != 1 or mode != "trait_self"):
             continue    # a provided (default-bodied) method of an entraited trait
         if lt in ("ab", "gen", "prov") and ar == 2 and tier != "thorough":
             continue
-        states.append(dict(key="z_%s_%s_d%d_a%d%s" % (mode, "a" if asy else "s", d, ar, {False: "", True: "_lt", "ab": "_ltab", "gen": "_gen", "prov": "_prov"}[lt]), mode=mode, asy=asy, depth=d, arity=ar, lt=lt))
+        states.append(dict(key="z_%s_%s_d%d_a%d%s" % (mode, "a" if asy else "s", d, ar, {False: "", True: "_lt", "ab": "_ltab", "gen": "_gen", "prov": "_prov", "val": "_val", "mki": "_mki"}[lt]), mode=mode, asy=asy, depth=d, arity=ar, lt=lt))
     return states, len(states), dict(depths=list(depths), arities=[0, 1, 2], modes=MODES)
 
 
@@ -60,16 +66,25 @@ def render(s):
     # bottom level in the mode under test
     i = d
     any_ = "&impl ::core::any::Any"
+    RT = "impl ::core::convert::Into<u64>" if lt == "mki" else "u64"
+    MK = ", mockall" if lt == "mki" else ""
     if mode == "fn":
-        L.append("    #[::entrait::entrait(pub L%d)]" % i)
-        L.append("    pub %sfn l%d%s(deps: %s%s) -> u64 { %s own%s }" % (A, i, G, any_, params, boxes(i), asum))
+        L.append("    #[::entrait::entrait(pub L%d%s)]" % (i, MK))
+        L.append("    pub %sfn l%d%s(deps: %s%s) -> %s { %s own%s }" % (A, i, G, any_, params, RT, boxes(i), asum))
         app = "::entrait::Impl::new(())"
         direct = "l1(&app%s)" % args if d > 1 or True else ""
     elif mode == "mod":
-        L.append("    #[::entrait::entrait(pub L%d)]" % i)
-        L.append("    pub mod bottom { pub %sfn l%d%s(deps: %s%s) -> u64 { %s own%s } pub fn unrelated(deps: %s) {} }" % (A, i, G, any_, params, boxes(i), asum, any_))
+        L.append("    #[::entrait::entrait(pub L%d%s)]" % (i, MK))
+        L.append("    pub mod bottom { pub %sfn l%d%s(deps: %s%s) -> %s { %s own%s } pub fn unrelated(deps: %s) {} }" % (A, i, G, any_, params, RT, boxes(i), asum, any_))
         app = "::entrait::Impl::new(())"
         direct = ("l1(&app%s)" % args) if d > 1 else ("bottom::l1(&app%s)" % args)
+    elif mode == "trait_self" and lt == "val":
+        L.append("    #[::entrait::entrait]")
+        L.append("    pub trait L%d { %sfn l%d(self%s) -> u64; }" % (i, A, i, params))
+        L.append("    pub struct App;")
+        L.append("    impl L%d for App { %sfn l%d(self%s) -> u64 { %s own%s } }" % (i, A, i, params, boxes(i), asum))
+        app = "()"
+        direct = "<App as L1>::l1(App%s)" % args
     elif mode == "trait_self" and lt == "prov":
         # the method is provided by the trait; its body mentions an identifier spelled like the method
         L.append("    #[::entrait::entrait]")
@@ -98,6 +113,10 @@ def render(s):
         app = "::entrait::Impl::new(App)"
         direct = ("l1(&app%s)" % args) if d > 1 else ("X::l1(&app%s)" % args)
     via = "L1::l1(&app%s)" % args
+    if lt == "val":
+        via = "L1::l1(::entrait::Impl::new(App)%s)" % args
+    if lt == "mki":
+        direct, via = "::core::convert::Into::<u64>::into(%s)" % direct, "::core::convert::Into::<u64>::into(%s)" % via
 
     def wrap(e):
         return "rt::block_on(%s)" % e if asy else e
@@ -112,7 +131,7 @@ def render(s):
 def model(s):
     d, ar = s["depth"], s["arity"]
     total = d * (d + 1) // 2
-    extra = {False: 0, None: 0, True: 2, "ab": 2, "gen": 2, "prov": 0}[s.get("lt")]
+    extra = {False: 0, None: 0, True: 2, "ab": 2, "gen": 2, "prov": 0, "val": 0, "mki": 0}[s.get("lt")]
     res = sum(i * i for i in range(1, d + 1)) + d * (sum(3 + i for i in range(ar)) + extra)
     return dict(allocs="%d|%d" % (total, total), res="%d|%d" % (res, res))
 
@@ -159,7 +178,7 @@ def evaluate(states, report, tier):
             if sig in done:
                 continue
             done.add(sig)
-            tags = {"mode:" + s["mode"], "async" if s["asy"] else "sync", "depth:%d" % s["depth"], "arity:%d" % s["arity"], {False: "elided", None: "elided", True: "named-lifetime", "ab": "outlives-bound", "gen": "generic-method", "prov": "provided-method"}[s.get("lt")]}
+            tags = {"mode:" + s["mode"], "async" if s["asy"] else "sync", "depth:%d" % s["depth"], "arity:%d" % s["arity"], {False: "elided", None: "elided", True: "named-lifetime", "ab": "outlives-bound", "gen": "generic-method", "prov": "provided-method", "val": "by-value-self", "mki": "mockall-impl-trait-return"}[s.get("lt")]}
             report.violation(s["key"], tags, sig, detail, state=s, source=engine.standalone_source(u), meta=dict(mode="run"))
 
 
